@@ -279,7 +279,7 @@ func (r *Run) Finish(verifDir string, extra map[string]any) Summary {
 	samples := []any{}
 	perRule := map[string]int{}
 	for _, o := range r.Obs {
-		if perRule[o.Rule] < 6 || o.Verdict != Discharged {
+		if perRule[o.Rule] < 6 || o.Verdict != Discharged || os.Getenv("VERIFSA_FULL") != "" {
 			samples = append(samples, o)
 			perRule[o.Rule]++
 		}
